@@ -134,6 +134,17 @@ impl CodeCache {
       if code_slice.len() < 1 {
         break;
       }
+      // An instruction can straddle the end of a ROM bank: its operand bytes
+      // then come from the next region of the memory map
+      let mut straddling = [0u8; 3];
+      let code_slice = if code_slice.len() < 3 {
+        for i in 0..3 {
+          straddling[i] = crate::mem::memory_read_byte(mem, (index + i) as u16);
+        }
+        &straddling[..]
+      } else {
+        code_slice
+      };
       let (next_op, length, _cycles) = decode(code_slice);
       index += length;
       block_ended = next_op.is_block_end();
